@@ -143,7 +143,7 @@ Definition Rel (s : tstate) (a : tspec) : Prop :=
 
 Definition op_ok (clock : Z) (o : top) : Prop :=
   match o with
-  | TAllow _ now n _ _ => now = clock /\ 0 <= n
+  | TAllow _ now n _ _ | TAllowF _ now n _ _ | TAllowC _ now n _ => now = clock /\ 0 <= n
   | TAdvance ms => 0 <= ms
   | _ => True
   end.
@@ -173,7 +173,7 @@ Proof.
   assert (MK : forall st' d l b' k, bucket_rel c st' b' -> rnow st' = k -> 0 <= k ->
             Rel (mkTS st' d l) (mkSp b' k d l)).
   { intros. unfold Rel; cbn. auto. }
-  destruct o as [i now n rescue brk|ms| | |i]; cbn [tstep sp_tstep dt tstore tdown tinsts sp_bucket sp_clock sp_tdown sp_insts].
+  destruct o as [i now n rescue brk|ms| | |i|i now n rescue r|i now n rescue]; cbn [tstep sp_tstep dt tstore tdown tinsts sp_bucket sp_clock sp_tdown sp_insts].
   - destruct (nth_error l i) as [t|] eqn:Hn; [|cbn [fst snd]; split; [reflexivity|split; [exact HR|cbn; lia]]].
     unfold reserve.
     destruct (alive t); cbn [negb].
@@ -184,7 +184,7 @@ Proof.
         cbv zeta in S.
         destruct (bucket_take (rate c) (burst c) b (rnow st / 1000) n) as [b' g].
         destruct S as [st' [S1 [S2 [S3 S4]]]]. rewrite S1.
-        destruct g; cbn [fst snd]; (split; [reflexivity|]); (split; [|cbn; lia]);
+        destruct g; cbn [token_reply fst snd]; (split; [reflexivity|]); (split; [|cbn; lia]);
           rewrite (set_nth_same _ _ _ Hn); rewrite <- S3; apply MK; auto; lia.
     + cbn [fst snd]. rewrite (set_nth_same _ _ _ Hn). split; [reflexivity|split; [exact HR|cbn; lia]].
   - cbn [fst snd]. split; [reflexivity|]. split; [|cbn; lia].
@@ -193,14 +193,23 @@ Proof.
   - cbn [fst snd]. split; [reflexivity|]. split; [|cbn; lia]. apply MK; auto.
   - destruct (nth_error l i) as [t|]; [|cbn [fst snd]; split; [reflexivity|split; [exact HR|cbn; lia]]].
     destruct (monitor t && negb d)%bool; cbn [fst snd]; (split; [reflexivity|]); (split; [|cbn; lia]); auto.
+  - destruct (nth_error l i) as [t|]; [|cbn [fst snd]; split; [reflexivity|split; [exact HR|cbn; lia]]].
+    destruct (alive t); cbn [negb]; [|cbn [fst snd]; split; [reflexivity|split; [exact HR|cbn; lia]]].
+    destruct (token_reply t r rescue) as [t' ob]. cbn [fst snd].
+    split; [reflexivity|]. split; [|cbn; lia]. apply MK; auto.
+  - destruct (nth_error l i) as [t|]; cbn [fst snd]; (split; [reflexivity|split; [exact HR|cbn; lia]]).
 Qed.
 
 Lemma twf_cons clock o ops : twf clock (o :: ops) = true -> op_ok clock o /\ twf (clock + dt o) ops = true.
 Proof.
-  destruct o as [i now n rescue brk|ms| | |i]; cbn [twf op_ok dt]; rewrite ?Z.add_0_r; intro H; auto.
+  destruct o as [i now n rescue brk|ms| | |i|i now n rescue r|i now n rescue]; cbn [twf op_ok dt]; rewrite ?Z.add_0_r; intro H; auto.
   - apply andb_true_iff in H. destruct H as [H H3]. apply andb_true_iff in H. destruct H as [H1 H2].
     apply Z.eqb_eq in H1. apply Z.leb_le in H2. auto.
   - apply andb_true_iff in H. destruct H as [H1 H2]. apply Z.leb_le in H1. auto.
+  - apply andb_true_iff in H. destruct H as [H H3]. apply andb_true_iff in H. destruct H as [H1 H2].
+    apply Z.eqb_eq in H1. apply Z.leb_le in H2. auto.
+  - apply andb_true_iff in H. destruct H as [H H3]. apply andb_true_iff in H. destruct H as [H1 H2].
+    apply Z.eqb_eq in H1. apply Z.leb_le in H2. auto.
 Qed.
 
 (* every answer of every instance, on every history, is the answer of the machine in which
@@ -231,7 +240,7 @@ Proof.
   - cbv zeta. split; [|split; [auto|lia]].
     pose proof (level_lipschitz (rate c) (burst c) ltac:(lia) (sp_bucket a) t0 (unix_s (sp_clock a)) Ht0). lia.
   - apply twf_cons in Hwf. destruct Hwf as [Hok Hwf].
-    destruct o as [i now n rescue brk|ms| | |i]; cbn [sp_tstep dt] in *; rewrite ?Z.add_0_r in Hwf.
+    destruct o as [i now n rescue brk|ms| | |i|i now n rescue r|i now n rescue]; cbn [sp_tstep dt] in *; rewrite ?Z.add_0_r in Hwf.
     + destruct (nth_error (sp_insts a) i) as [t|]; [|cbn [fst]; apply IH; auto].
       destruct (alive t); cbn [negb]; [|cbn [fst snd]; destruct rescue; apply IH; auto].
       destruct (sp_tdown a || negb brk)%bool; [cbn [fst snd]; destruct rescue; apply (IH (mkSp _ _ _ _)); auto|].
@@ -253,6 +262,10 @@ Proof.
     + cbn [fst]. apply (IH (mkSp _ _ _ _)); auto.
     + destruct (nth_error (sp_insts a) i) as [t|]; [|cbn [fst]; apply IH; auto].
       destruct (monitor t && negb (sp_tdown a))%bool; cbn [fst]; [apply (IH (mkSp _ _ _ _))|apply IH]; auto.
+    + destruct (nth_error (sp_insts a) i) as [t|]; [|cbn [fst]; apply IH; auto].
+      destruct (alive t); cbn [negb]; [|cbn [fst snd]; apply IH; auto].
+      destruct (token_reply t r rescue) as [t' ob]. cbn [fst snd]. apply (IH (mkSp _ _ _ _)); auto.
+    + destruct (nth_error (sp_insts a) i) as [t|]; cbn [fst snd]; apply IH; auto.
 Qed.
 
 (* TOKEN JOINT BOUND on the model *)
